@@ -224,20 +224,37 @@ def _unimodular(rng, d):
     return U, Ui
 
 
+def _oi(outs, a):
+    """output_inds handed to the pass: the outer labels, or None (args['infer']: only when `outs` ARE the labels occurring
+    once) so that the pass's own default inference is exercised too"""
+    return None if a.get("infer") else outs
+
+
 def p_rank_simplify(tn, outs, a):
-    return tn.rank_simplify(output_inds=outs), 1
+    return tn.rank_simplify(output_inds=_oi(outs, a)), 1
 
 
 def p_diagonal_reduce(tn, outs, a):
-    return tn.diagonal_reduce(output_inds=outs), 1
+    return tn.diagonal_reduce(output_inds=_oi(outs, a)), 1
 
 
 def p_antidiag_gauge(tn, outs, a):
-    return tn.antidiag_gauge(output_inds=outs), 1
+    return tn.antidiag_gauge(output_inds=_oi(outs, a)), 1
 
 
 def p_column_reduce(tn, outs, a):
-    return tn.column_reduce(output_inds=outs), 1
+    return tn.column_reduce(output_inds=_oi(outs, a)), 1
+
+
+def p_structure_shared_cache(tn, outs, a):
+    """the three structure passes called in place, in any order, any number of times, sharing one persistent `cache`
+    (the way full_simplify drives them, without its squeeze / rank steps)"""
+    tn = tn.copy()
+    cache = set()
+    for letter in a["order"]:
+        meth = {"A": tn.antidiag_gauge_, "D": tn.diagonal_reduce_, "C": tn.column_reduce_}[letter]
+        meth(output_inds=_oi(outs, a), cache=cache)
+    return tn, 1
 
 
 def p_fuse_multibonds(tn, outs, a):
@@ -260,7 +277,7 @@ def p_collapse_repeated(tn, outs, a):
 
 
 def p_full_simplify(tn, outs, a):
-    return tn.full_simplify(a["seq"], output_inds=outs), 1
+    return tn.full_simplify(a["seq"], output_inds=_oi(outs, a)), 1
 
 
 def p_hyperinds_resolve(tn, outs, a):
@@ -312,6 +329,7 @@ PASSES = {
     "diagonal_reduce": p_diagonal_reduce,
     "antidiag_gauge": p_antidiag_gauge,
     "column_reduce": p_column_reduce,
+    "structure_passes[shared_cache]": p_structure_shared_cache,
     "fuse_multibonds": p_fuse_multibonds,
     "squeeze[exclude=outer]": p_squeeze_inner,
     "squeeze": p_squeeze_all,
@@ -952,7 +970,117 @@ class spy_multiply:
         self.cls.compute_contracted_inds = compute_contracted_inds
         self.tcls.flip = flip
         self.tcls.flip_ = functools.partialmethod(flip, inplace=True)
+        self._trace_enter()
         return self
+
+    # -- decision trace of the structure passes (antidiag_gauge / diagonal_reduce / column_reduce) ------------------
+    # calls: one record per call of a pass: {"pass": "ag" | "dr" | "cr", "steps": [[a, b, decision], ...]}; a step is one
+    # visited tensor for which the finder returned a structure: ag: (label i, label j, flipped label | None);
+    # dr: (label i, label j, [removed, kept] | None); cr: (label, column, True | False).  The labels are read from the
+    # tensor the pass is looking at (local `t` of the pass's frame, cross-checked by identity of its data with the
+    # array handed to the finder); what the pass then does is seen at TensorNetwork.flip / reindex / isel.
+    OWNER = {"ag": "antidiag_gauge", "dr": "diagonal_reduce", "cr": "column_reduce"}
+    FINDER = {"ag": "find_antidiag_axes", "dr": "find_diag_axes", "cr": "find_columns"}
+
+    def _trace_enter(self):
+        import functools
+        import sys
+
+        import quimb.tensor.tensor_core as tc
+
+        self.tc = tc
+        self.calls = []
+        self.untraced = 0
+        self._cur = {}
+        self.real_finders = {k: getattr(tc, fn) for k, fn in self.FINDER.items()}
+        self.real_tn = {m: getattr(self.cls, m) for m in ("flip", "reindex", "isel")}
+        spy = self
+
+        def call_for(kind, frame):
+            cur = spy._cur.get(kind)
+            if cur is None or cur[0] is not frame:
+                rec = {"pass": kind, "steps": [], "visited": 0}
+                spy.calls.append(rec)
+                spy._cur[kind] = cur = (frame, rec)  # the frame is kept alive so that `is` identifies the call
+            return cur[1]
+
+        def mk_finder(kind):
+            real = spy.real_finders[kind]
+
+            def finder(x, *a, **kw):
+                r = real(x, *a, **kw)
+                try:
+                    f = sys._getframe(1)
+                    if f.f_code.co_name == spy.OWNER[kind]:
+                        rec = call_for(kind, f)
+                        rec["visited"] += 1
+                        if r is not None:
+                            loc = f.f_locals
+                            t = loc.get("t")
+                            if t is None or t.data is not x:
+                                t = next((u for u in loc["tn"].tensor_map.values() if u.data is x), None)
+                            if t is None:
+                                spy.untraced += 1
+                            elif kind == "cr":
+                                rec["steps"].append([t.inds[int(r[0])], int(r[1]), False])
+                            else:
+                                rec["steps"].append([t.inds[int(r[0])], t.inds[int(r[1])], None])
+                except Exception:
+                    spy.untraced += 1
+                return r
+
+            return finder
+
+        def decide(kind, decision):
+            f = sys._getframe(2)
+            if f.f_code.co_name != spy.OWNER[kind]:
+                return
+            rec = call_for(kind, f)
+            if rec["steps"] and rec["steps"][-1][2] in (None, False):
+                rec["steps"][-1][2] = decision
+            else:  # an action that no finder answer explains
+                rec["steps"].append(["?", "?" if kind != "cr" else -1, decision])
+
+        def tn_flip(tn, inds, inplace=False):
+            try:
+                for ix in ([inds] if isinstance(inds, str) else list(inds)):
+                    decide("ag", ix)
+            except Exception:
+                spy.untraced += 1
+            return spy.real_tn["flip"](tn, inds, inplace=inplace)
+
+        def tn_reindex(tn, index_map, inplace=False):
+            try:
+                if sys._getframe(1).f_code.co_name == "diagonal_reduce":
+                    for a, b in dict(index_map).items():
+                        decide("dr", [a, b])
+            except Exception:
+                spy.untraced += 1
+            return spy.real_tn["reindex"](tn, index_map, inplace=inplace)
+
+        def tn_isel(tn, selectors, inplace=False):
+            try:
+                if sys._getframe(1).f_code.co_name == "column_reduce":
+                    decide("cr", True)
+            except Exception:
+                spy.untraced += 1
+            return spy.real_tn["isel"](tn, selectors, inplace=inplace)
+
+        for kind, fn in self.FINDER.items():
+            setattr(tc, fn, mk_finder(kind))
+        for m, w in (("flip", tn_flip), ("reindex", tn_reindex), ("isel", tn_isel)):
+            setattr(self.cls, m, w)
+            setattr(self.cls, m + "_", functools.partialmethod(w, inplace=True))
+
+    def _trace_exit(self):
+        import functools
+
+        for kind, fn in self.FINDER.items():
+            setattr(self.tc, fn, self.real_finders[kind])
+        for m, real in self.real_tn.items():
+            setattr(self.cls, m, real)
+            setattr(self.cls, m + "_", functools.partialmethod(real, inplace=True))
+        self._cur = {}
 
     def __exit__(self, *a):
         import functools
@@ -962,6 +1090,7 @@ class spy_multiply:
         self.cls.compute_contracted_inds = self.real_cci
         self.tcls.flip = self.real_flip
         self.tcls.flip_ = functools.partialmethod(self.real_flip, inplace=True)
+        self._trace_exit()
         return False
 
 
